@@ -61,7 +61,9 @@ def build_tools():
 
 def tool(name):
     p = os.path.join(BUILD, name)
-    if not os.path.exists(p):
+    src = os.path.join(VERIF, 'tools', name)
+    newest = max([os.path.getmtime(os.path.join(src, f)) for f in os.listdir(src)] or [0]) if os.path.isdir(src) else 0
+    if not os.path.exists(p) or os.path.getmtime(p) < newest:
         build_tools()
     return p
 
